@@ -147,6 +147,7 @@ def run_project(p):
                     classes.append((sq + "." + k, v))
         if p.get("details"):
             out["details"] = details(mods)
+            out["module_docs"] = {q: (inspect.cleandoc(m.__doc__) if isinstance(m.__doc__, str) else None) for q, m in mods.items()}
         if p.get("sites"):
             out["sites"] = sites(mods)
     finally:
